@@ -263,6 +263,9 @@ mod if_alloc {
     pub mod shared {
         use super::*;
         use crate::channel::shared::ChannelReceiveFuture;
+        #[cfg(futures_intrusive_verif)]
+        use crate::verif::sync::{AtomicUsize, Ordering};
+        #[cfg(not(futures_intrusive_verif))]
         use core::sync::atomic::{AtomicUsize, Ordering};
 
         struct GenericOneshotChannelSharedState<MutexType, T>
